@@ -318,14 +318,20 @@ def part_product(ctx, shard):
 
 def part_inconsistent(ctx, shard):
     world.reset_world()
-    slots = ["length_unit", "mass_unit", "time_unit", "temperature_unit", "angle_unit", "current_mks_unit", "luminous_intensity_unit"]
-    good = {"length_unit": "m", "mass_unit": "kg", "time_unit": "s", "temperature_unit": "K", "angle_unit": "rad", "current_mks_unit": "A", "luminous_intensity_unit": "cd"}
-    wrong = ["m", "kg", "s", "K", "rad", "A", "cd", "J", "km", "ms"]
+    slots = ["length_unit", "mass_unit", "time_unit", "temperature_unit", "angle_unit", "current_mks_unit", "luminous_intensity_unit", "logarithmic_unit"]
+    good0 = {"length_unit": "m", "mass_unit": "kg", "time_unit": "s", "temperature_unit": "K", "angle_unit": "rad", "current_mks_unit": "A", "luminous_intensity_unit": "cd", "logarithmic_unit": "Np"}
+    wrong = ["m", "kg", "s", "K", "rad", "A", "cd", "J", "km", "ms", "Np", "dB"]
     n = 0
-    for slot in slots:
+    # every slot x every candidate unit, in a system WITH an SI current unit and in one WITHOUT (current_mks_unit=None)
+    for nocurrent, slot in itertools.product((False, True), slots):
+        good = dict(good0)
+        if nocurrent:
+            if slot == "current_mks_unit":
+                continue
+            good["current_mks_unit"] = None
         for w in wrong:
             wd = dim_of(Unit(w).dimensions)
-            gd = dim_of(Unit(good[slot]).dimensions)
+            gd = dim_of(Unit(good0[slot]).dimensions)
             kw = dict(good)
             kw[slot] = w
             ctx.count("evaluations")
@@ -341,7 +347,7 @@ def part_inconsistent(ctx, shard):
                 st = "other:" + type(e).__name__
             ctx.outcome(("inconsistent", slot, w, st))
             ctx.decided(("inconsistent", slot, w))
-            case = {"part": "inconsistent", "slot": slot, "unit": w}
+            case = {"part": "inconsistent", "slot": slot, "unit": w, "without_current": nocurrent}
             if wd == gd:
                 if st != "created":
                     ctx.violation(f"C10|construct|slot={slot}|mode=consistent-system-rejected:{st}", case, "created", st)
